@@ -15,7 +15,7 @@ PROC = z3.Function('PROC', Mat, Mat, Mat)        # orthogonal_procrustes(A, B)[0
 
 def hpad_axioms():
     A = z3.Const('A!hp', Mat); w = Int('w!hp')
-    return [ForAll([A, w], And(rows(HPad(A, w)) == rows(A), cols(HPad(A, w)) == w), patterns=[HPad(A, w)]),
+    return [ForAll([A, w], Implies(w >= 0, And(rows(HPad(A, w)) == rows(A), cols(HPad(A, w)) == w)), patterns=[HPad(A, w)]),
             ForAll([A, w, i_, j_], at(HPad(A, w), i_, j_) == If(j_ < cols(A), at(A, i_, j_), RealVal(0)), patterns=[at(HPad(A, w), i_, j_)]),
             ForAll([A], HPad(A, cols(A)) == A, patterns=[HPad(A, cols(A))])]
 
